@@ -103,6 +103,15 @@ impl Family for C09 {
                 kind: *rng.pick(&ErrK::HARD),
             },
         };
+        // half of the byte-adapter runs end the byte stream inside a word: 1..W/8-1 bytes of a
+        // further word follow the last whole word (they are not data: a partial trailing word
+        // is an error, so the stream still ends at the cut)
+        let mut rbackend = rbackend;
+        if rkind.word_bits() > 8 && rng.chance(1, 2) {
+            if let Some(p) = rbackend.plan_mut() {
+                p.trailing = rng.usize_range(1, rkind.word_bits() / 8 - 1);
+            }
+        }
         let mut elems = elems;
         if rkind == RdKind::B8 && (rbackend.zero_extended() || crate::p01::CLEAN_ARGS.load(std::sync::atomic::Ordering::Relaxed)) {
             // see C03: the known finding (u8 reader + tables) is exercised on strict backends only,
@@ -209,6 +218,7 @@ impl Family for C09 {
             ctx.fault("stream_truncated_after_word", 1);
         }
         let mut sim = RSim::new("C09", s.e, s.rkind, &s.rbackend, &img);
+        ctx.probe_if(s.rbackend.plan().map(|p| p.trailing > 0).unwrap_or(false), "c09.byte_stream_ends_inside_a_word");
         let strict = !s.rbackend.zero_extended();
         let mut table_seen = false;
         // the whole sequence of reads: offset chunks, then elements
@@ -487,6 +497,7 @@ impl Family for C09 {
 
     fn required_probes(_t: Tier) -> Vec<&'static str> {
         vec![
+            "c09.byte_stream_ends_inside_a_word",
             "c09.reread_after_error_and_seek",
             "c09.truncated",
             "c09.item_ends_exactly_at_cut",
